@@ -95,7 +95,7 @@ impl Env {
         let mut c = Cli::connect(id, &self.addr(), tls).await.map_err(|e| format!("connect: {}", e))?;
         match c.startup(user, db, extra, Password::Md5(user, password)).await {
             AuthOutcome::Ok => Ok(c),
-            o => Err(format!("startup failed: {:?}", o)),
+            o => Err(format!("startup failed: {:?} ({})", o, c.last_io)),
         }
     }
 
